@@ -105,7 +105,8 @@ fn fft_check<const S: usize, const L: usize>(coset: bool) {
     let base = Radix2EvaluationDomain::<F>::new(S).unwrap();
     let d = if coset { base.get_coset(F::enc(h)).unwrap() } else { base };
     let gen = d.group_gen().val();
-    let coeffs: Vec<F> = c.iter().map(|&x| F::enc(x)).collect();
+    let cv: [F; L] = core::array::from_fn(|k| F::enc(c[k]));
+    let coeffs: Vec<F> = cv.to_vec();
     let evals = d.fft(&coeffs);
     let back = d.ifft(&evals);
     let i: usize = any();
@@ -145,6 +146,31 @@ fn lagrange<const S: usize>() {
 }
 
 crate::harnesses! { REG;
+    /// quick required unwindset=>::pow:8 | TEST fft_check 4,4 subgroup
+    #[unwind(70)]
+    fn c07_t_a() { fft_check::<4, 4>(false) }
+    /// quick required unwindset=>::pow:8 | TEST fft_check 4,4 coset
+    #[unwind(70)]
+    fn c07_t_b() { fft_check::<4, 4>(true) }
+    /// quick required unwindset=>::pow:8 | TEST new(4) only
+    #[unwind(70)]
+    fn c07_t_new4() { let d = Radix2EvaluationDomain::<F>::new(4).unwrap(); crate::cover!(true); let ok = d.size() == 4 && powm(d.group_gen().val(), 4) == 1; assert!(ok); }
+    /// quick required unwindset=>::pow:8 | TEST fft 4 subgroup
+    #[unwind(70)]
+    fn c07_t_fft4() {
+        let c: [u32; 4] = core::array::from_fn(|_| anyv());
+        let d = Radix2EvaluationDomain::<F>::new(4).unwrap();
+        let gen = d.group_gen().val();
+        let v: [F; 4] = core::array::from_fn(|i| F::enc(c[i]));
+        let mut coeffs = v.to_vec();
+        d.fft_in_place(&mut coeffs);
+        let i: usize = any();
+        assume(i < 4);
+        crate::cover!(c[3] != 0);
+        let ok = coeffs.len() == 4 && coeffs[i].val() == horner(&c, powm(gen, i as u32));
+        core::mem::forget(coeffs);
+        assert!(ok);
+    }
     /// quick required unwindset=>::pow:8,compute_powers:18 | Radix2 / General domain construction over F_17 for ALL requested sizes n in 0..=20: size >= n and minimal power of two, None exactly when n > 16 (no subgroup), generator of EXACT order, inverse / size_inv / offset fields consistent, get_root_of_unity agrees
     #[unwind(70)]
     fn c07_domain_new() { domain_new() }
